@@ -37,9 +37,9 @@ func VH_C10_Handshake() {
 		b := vBytes("stale", vIntRange("stalelen", 1, vParam("maxstalelen", 3)))
 		benign = benign && ((len(b) == 2 && (b[0] == ACK || b[0] == NACK)) || (len(b) == 1 && b[0] == FIN))
 		if vBool("stale_to_server") {
-			p.c2s.ch <- b
+			p.c2s.push(b)
 		} else {
-			p.s2c.ch <- b
+			p.s2c.push(b)
 		}
 	}
 	order := vIntRange("start_order", 0, 2) // 0 together, 1 server late, 2 client late
